@@ -80,7 +80,7 @@ func VHAlgebra() {
 	if !v.Bool("alias") {
 		b = vSetOnly()
 	}
-	sets.VAlgStep(sets.VAlg{A: a, B: b, Ordered: false,
+	sets.VAlgStep(sets.VAlg{A: a, B: b, Inv: func(c any) { VInv(c.(*Set[int])) }, Has: func(c any, x int) bool { return c.(*Set[int]).Contains(x) }, Ordered: false,
 		Apply: func(op int) any {
 			switch op {
 			case 0:
